@@ -472,7 +472,7 @@ def run_bounded(res):
             kind = f['kind']
             fid = None
             for prefix, known in KNOWN.items():
-                if kind.startswith(prefix) and (fid is None or len(prefix) > len(fid[0])):
+                if common.kind_matches(kind, prefix) and (fid is None or len(prefix) > len(fid[0])):
                     fid = (prefix, known)
             if fid:
                 res.known_hit(fid[1])
